@@ -274,5 +274,20 @@ CodedGetStrBareHash(n, k) == CodedGetStrH(HashTagged, <<"bare", "str">>, n, k)
 
 \* equality / hashing law of C20 on a recorded pair: nodes that compare equal hash equally, and
 \* the same data compares equal whatever the form of its strings
-EqHashLaw(x, y, eq, hx, hy) == (eq => hx = hy) /\ (Equal(x, y) => eq)
+\* (equality is equality of the data: floats by value -- the two zeroes are one value, NaN payloads are not told apart by the
+\* projection --, sequences and mappings entry by entry in order)
+ZeroBits == {"0000000000000000", "8000000000000000"}
+RECURSIVE EqualData(_, _)
+RECURSIVE EqualItems(_, _, _)
+RECURSIVE EqualPairs(_, _, _)
+EqualItems(a, b, i) == IF i > Len(a) THEN TRUE ELSE EqualData(a[i], b[i]) /\ EqualItems(a, b, i + 1)
+EqualPairs(a, b, i) == IF i > Len(a) THEN TRUE ELSE EqualData(a[i][1], b[i][1]) /\ EqualData(a[i][2], b[i][2]) /\ EqualPairs(a, b, i + 1)
+EqualData(x, y) ==
+  LET a == Unspan(x) b == Unspan(y) IN
+  IF a.t # b.t THEN FALSE
+  ELSE IF a.t = "float" THEN a.bits = b.bits \/ (a.bits \in ZeroBits /\ b.bits \in ZeroBits)
+  ELSE IF a.t = "seq" THEN Len(a.items) = Len(b.items) /\ EqualItems(a.items, b.items, 1)
+  ELSE IF a.t = "map" THEN Len(a.pairs) = Len(b.pairs) /\ EqualPairs(a.pairs, b.pairs, 1)
+  ELSE a = b
+EqHashLaw(x, y, eq, hx, hy) == (eq => hx = hy) /\ (Equal(x, y) => eq) /\ (eq => EqualData(x, y))
 =============================================================================
